@@ -135,6 +135,20 @@ impl<'c, 'd> ProgGen<'c, 'd> {
 
     /// An annotation for type `ty`, sometimes written in a convertible but non-normal form.
     fn annotation(&mut self, ty: &Rc<V>) -> Option<S> {
+        // Use a type alias that is in scope (a definition of type `type` whose value is this type)
+        // now and then, so that types mention variables of definition groups.
+        if self.ch.chance(1, 3) {
+            let aliases: Vec<Entry> = self.scope.iter().filter(|e| e.is_def && matches!(&*e.ty, V::Type)).cloned().collect();
+            for e in aliases.iter().rev().take(4) {
+                let env = self.env.clone();
+                if let Ok(v) = self.nbe.eval(&K::Var(e.id), &env) {
+                    if !matches!(&*v, V::Var(_)) && self.conv(&v, ty) {
+                        self.features.insert("annotation written with a type alias of a group");
+                        return Some(sast::var(&e.name));
+                    }
+                }
+            }
+        }
         let plain = self.quote_s(ty)?;
         if self.cfg.obfuscate_16 > 0 && self.ch.chance(self.cfg.obfuscate_16, 16) {
             self.features.insert("type-level computation in an annotation");
@@ -439,9 +453,20 @@ impl<'c, 'd> ProgGen<'c, 'd> {
                     let t = self.function_type(fuel - 1);
                     t.and_then(|t| self.def_of_type(t, fuel - 1)).map(|d| vec![d])
                 }
-                5 => self.def_of_type(Rc::new(V::Type), fuel - 1).map(|d| vec![d]),
+                5 => {
+                    // A type alias; mostly of a type that later definitions are likely to have.
+                    if self.ch.chance(2, 3) {
+                        let t = [S::Int, S::Bool, sast::arrow(S::Int, S::Int), S::Int][self.ch.pick(4)].clone();
+                        let name = self.fresh_name();
+                        Some(vec![(name, S::Type, t)])
+                    } else {
+                        self.def_of_type(Rc::new(V::Type), fuel - 1).map(|d| vec![d])
+                    }
+                }
                 6 | 7 if self.cfg.recursion => self.recursive_def(fuel - 1).map(|d| vec![d]),
-                8 if self.cfg.recursion => self.mutual_defs(),
+                8 if self.cfg.recursion => {
+                    if self.ch.chance(1, 2) { self.mutual_defs() } else { self.recursive_with_later_helper() }
+                }
                 9 => self.polymorphic_def(fuel - 1).map(|d| vec![d]),
                 10 if self.cfg.forward_aliases => self.forward_alias_defs(),
                 _ => self.def_of_type(Rc::new(V::Int), fuel - 1).map(|d| vec![d]),
@@ -558,6 +583,45 @@ impl<'c, 'd> ProgGen<'c, 'd> {
         self.features.insert("mutually recursive definitions");
         let ty = sast::arrow(S::Int, S::Bool);
         Some(vec![(ev.clone(), ty.clone(), body(S::True, &od, &n)), (od, ty, body(S::False, &ev, &n))])
+    }
+
+    /// A (possibly recursive) function whose body calls helper functions that are defined *after*
+    /// it in the same group: `f = (n) => if n <= 0 then b else g (f (n - 1)); g = (x) => h x + 1; h = ..`.
+    fn recursive_with_later_helper(&mut self) -> Option<Vec<(String, S, S)>> {
+        let f = self.fresh_name();
+        let g = self.fresh_name();
+        let n = self.fresh_name();
+        let x = self.fresh_name();
+        let ty = sast::arrow(S::Int, S::Int);
+        let k = BigInt::from(1 + self.ch.pick(20));
+        let recursive = self.ch.chance(2, 3);
+        let call_g = |arg: S| sast::app(sast::var(&g), S::Paren(Box::new(arg)));
+        let f_body = if recursive {
+            let rec = sast::app(sast::var(&f), S::Paren(Box::new(sast::bin(Op::Sub, sast::var(&n), sast::lit(1)))));
+            let step = match self.ch.pick(3) {
+                0 => call_g(rec),
+                1 => sast::bin(Op::Add, call_g(sast::var(&n)), rec),
+                _ => sast::bin(Op::Add, rec, call_g(sast::lit(2))),
+            };
+            sast::ite(sast::bin(Op::Le, sast::var(&n), sast::lit(0)), sast::lit(self.ch.pick(3) as i64), step)
+        } else {
+            sast::bin(Op::Mul, call_g(sast::var(&n)), sast::lit(2))
+        };
+        let mut out = vec![(f.clone(), ty.clone(), sast::lam(&n, Some(S::Int), f_body))];
+        // The helper, and sometimes a second helper after it that the first one calls.
+        if self.ch.chance(1, 3) {
+            let h = self.fresh_name();
+            let y = self.fresh_name();
+            out.push((g.clone(), ty.clone(), sast::lam(&x, Some(S::Int), sast::bin(Op::Add, sast::app(sast::var(&h), sast::var(&x)), S::Lit(k.clone())))));
+            out.push((h, ty, sast::lam(&y, Some(S::Int), sast::bin(Op::Mul, sast::var(&y), sast::lit(2)))));
+        } else {
+            out.push((g.clone(), ty, sast::lam(&x, Some(S::Int), sast::bin(Op::Add, sast::var(&x), S::Lit(k)))));
+        }
+        self.features.insert("function calling helpers defined later in its group");
+        if recursive {
+            self.features.insert("recursive definition");
+        }
+        Some(out)
     }
 
     fn polymorphic_def(&mut self, fuel: usize) -> Option<(String, S, S)> {
